@@ -425,6 +425,23 @@ def _directed(ctx):
     def c7(s: S, k: int) -> D: ...
     expect("link-function-model-ctx-kwonly", c7, (s, 4), D(1, 2, 1042, DI(10, 20)))
 
+    # defaults of extra parameters are values like any other source: they arrive unchanged, whatever their repr() looks like (defect #69)
+    import enum as _enum  # noqa: PLC0415
+    from fractions import Fraction  # noqa: PLC0415
+
+    class _E(_enum.Enum):
+        A = 1
+
+    class _MyInt(int):
+        pass
+    for dflt in (Fraction(1, 2), _E.A, Decimal("1.5"), float("inf"), _MyInt(3), "x\ny", (1,), None):
+        def stub(s: S, k=dflt) -> D: ...
+        made = attempt(lambda stub=stub: impl_converter(recipe=[link(from_param("k"), P[D].x)])(stub))
+        ctx.evaluated(("directed", "param-default", repr(dflt)))
+        ctx.count("directed_cases")
+        out = attempt(made.value, s) if made.kind == "ok" else made
+        if out.kind != "ok" or not strict_eq(out.value, D(1, 2, dflt, DI(10, 20))):
+            ctx.violation("directed:extra-parameter-default", f"stub(s, k={dflt!r}) with link(from_param('k'), x): {out!r:.200}, expected x to be the default itself", {})
     for v in [Decimal("0"), True, 1.0, range(0, 10, 2), None, (Decimal("1"), [1])]:
         conv = get_converter(S, D, recipe=[link_constant(P[D].x, value=v)])
         expect(f"link-constant:{type(v).__name__}", conv, (s,), D(1, 2, v, DI(10, 20)))
